@@ -345,7 +345,7 @@ public:
             // Assign other to temporary
             tmp = other;
             // assign temporary to this
-            this->operator=(tmp);
+            this->operator*=(tmp);
             return;
         }
 #endif
